@@ -13,20 +13,33 @@ RULE = ("generated object trees (leaf / derived leaf / mid / top classes, 1-3 su
         "every lowered formula (non-random fields must appear as constants of their current value), values of all fields before/after "
         "(success and SolveFailure); non-trivial = distinct (used flags, active blocks, callbacks) triples")
 
+RL_PROFILE = {"rangelists": True, "big": 0.0, "soft": 0.03, "enum": 0.0, "maxstmts": 2, "calls": 1, "inline": 0.2}
+
+
 def free_standing(ck, tier, cases):
+    """free-standing calls on stand-alone fields, and objects whose range lists are edited between calls"""
     import freecheck
+    import solvecheck
     if cases is not None:
-        freecheck.run(ck, 0, extra=[{"fields": c["fields"], "calls": c["calls"]} for c in cases])
+        free = [c for c in cases if c.get("free")]
+        rls = [c for c in cases if c.get("rangelists")]
+        if free:
+            freecheck.run(ck, 0, extra=[{"fields": c["fields"], "calls": c["calls"]} for c in free])
+        if rls:
+            solvecheck.run(ck, "C03", 0, RL_PROFILE, extra=rls)
     else:
         freecheck.run(ck, 3000 if tier == "thorough" else 160)
+        solvecheck.run(ck, "C03/rl", 3000 if tier == "thorough" else 150, RL_PROFILE)
 
 
 if __name__ == "__main__":
     common.run_main(lambda: worldcheck.standard_main(
         "C03", ["C03"], THEOREMS, {"nops": 8}, 150, 6000,
         ["as C01 for the solve itself; rand_mode is toggled on scalar fields only (through vsc.raw_mode())",
-         "mutable rangelists / non-random lists edited between calls are not generated in this revision (non-random lists as constants: C04)"],
+         "non-random lists edited between calls are generated under C04"],
         RULE + "; plus free-standing calls: 2-4 stand-alone fields, 2-4 calls vsc.randomize(*passed) / vsc.randomize_with(*passed) with "
         "inline constraints over passed and not-passed fields, assignments between calls; a field is random in a call iff it is passed; "
-        "fields that are not passed must keep their values and appear as constants in every formula",
+        "fields that are not passed must keep their values and appear as constants in every formula; plus objects holding 1-2 range lists that "
+        "constraints refer to (in / not in) and that are edited between calls (clear, append, extend): the formulas of every call must "
+        "carry the content at that time",
         keep=lambda w: not w.startswith("callbacks"), extra_run=free_standing))
